@@ -118,12 +118,13 @@ class Episode:
 
 
 def run_episode(env, td_in, chooser_names, gen, max_steps: int, scripted=None, snap_keys=None, get_reward=True,
-                pad_chooser=None, stop_when_all_done=True, extra_pad_steps=0) -> Episode:
+                pad_chooser=None, stop_when_all_done=True, extra_pad_steps=0, clone_input=True) -> Episode:
     """td_in: instance TensorDict (generator format). chooser_names: per-row chooser.
     scripted: optional [B][T] list of actions (rows may be shorter -> padding by pad_chooser/'first_true').
     """
     ep = Episode()
-    td = env.reset(td_in.clone())
+    # clone_input=False hands the caller's instance object itself to env.reset, as user code that evaluates one batch twice does
+    td = env.reset(td_in.clone() if clone_input else td_in)
     B = td.batch_size[0]
     ep.B = B
     ep.td0 = td.clone()
